@@ -31,6 +31,11 @@ CHECKS["C20"] = dict(
    text="Every value of a menu (39 boundary integers around 2^7..2^32, 11 floats incl. inf/nan/-0.0, all strings of length <= 2 over 8 critical characters, encoded-text strings, JSON values of <= 3 nodes, all integer arrays of length <= 2 over the boundary integers, float/mixed/empty arrays, NumericArray and ByteArray instances) x declared datatype (none, A,i,f,Z,J,H,B) x 2 tag names x 3 host records x vlevel 0..3. Oracle: documented default datatype; a representable value validates, is written in the datatype's grammar with the smallest B subtype and reads back equal with the same datatype; an unrepresentable one is refused by validate() and never written unmarked at level >= 2.",
    note="Python bool and user classes are outside the claim; pairings the documentation leaves open (int under f, list under H, arrays under J) are not judged.",
    ref="3 C20", engine="I")
+CHECKS["C18"] = dict(
+   technique="bounded-exhaustive enumeration of (document, level) and of set/observe programs x levels on the real code, cross-level comparison",
+   text="(1) Every document of the C01 family is built at levels 0..3 and the four canonical observations (records modulo spelling, names, references, back-references, version) must be equal. (2) For every single-point mutation of the corpus (lines and documents) the accept/reject vector over levels 0..3 must be downward closed. (3) For 20 (record, field) pairs covering all tag datatypes and positional datatypes, every valid and invalid value of a menu, stand-alone and connected, levels 0..3, every program set(f,v);op1;op2 over {get, field_to_s, str, validate_field, validate, none}: a valid assignment is never reported; an invalid one raises at the assignment at level 3, is refused by field_to_s / flagged by str at level >= 2 and by validate_field/validate at every level.",
+   note="What get() returns is not judged; cross-field invalidity (LN vs sequence) is only demanded from validate(); texts compared modulo canonical spelling.",
+   ref="3 C18", engine="I")
 NOT_BUILT = {}
 
 def main():
